@@ -143,6 +143,7 @@ def run(rep):
     if forms.CAPTURE is not None:
         return
     replay_histories(rep, hists)
+    replay_pairs(rep, hists, 400 if quick else len(hists))
     random_trace(rep, 150 if quick else 2000)
     # the configuration tables as a model (spec/Config.tla): reported in the evidence, gating nothing here
     import lint
@@ -193,6 +194,73 @@ def replay_histories(rep, hists):
                                "feat": {"form": "history", "what": what, "failure": compare.failure_kind(None, st)},
                                "class": "history|%s|step%d|prev=%s" % (what, k, c["hist"][k - 1]["call"] if k else "none")})
                 break
+
+
+def hist_steps(c, cfg, salt, calc=None):
+    steps = []
+    for k, h in enumerate(c["hist"]):
+        if h["call"] == "update_currency":
+            st = {"op": "update_currency", "cur": h["cur"], "rate": rate_float(h["rate"])}
+        else:
+            st = {"op": "execute", "lang": "en", "text": renderings(h["line"], cfg, salt + k, False)[0][1]}
+        if calc:
+            st["calc"] = calc
+        steps.append(st)
+    return steps
+
+
+def replay_pairs(rep, hists, n):
+    """Two calculators alive in one process, each living one of TLC's histories, their calls interleaved: the state of the
+    model is per calculator (two copies of SmartCalc.tla composed by interleaving share no variable), so every call is
+    expected to return what it returns in its own history alone."""
+    rng = random.Random(rep.seed * 6011 + 66)
+    withupd = [c for c in hists if any(h["call"] == "update_currency" and h["ret"] for h in c["hist"])]
+    if not withupd:
+        return
+    cases, metas = [], []
+    for pi in range(n):
+        a = withupd[pi % len(withupd)]
+        b = hists[rng.randrange(len(hists))]
+        if pi % 2:
+            a, b = b, a
+        cfg = CFGS[pi % 2]
+        sa, sb = hist_steps(a, cfg, pi, None), hist_steps(b, cfg, pi + 1, 2)
+        order = [(1, k) for k in range(len(sa))] + [(2, k) for k in range(len(sb))]
+        # a random interleaving that keeps each calculator's own order
+        pick = sorted(rng.sample(range(len(order)), len(sa)))
+        steps, meta, ia, ib = [], [], 0, 0
+        for pos in range(len(order)):
+            if ia < len(sa) and pos == pick[ia]:
+                steps.append(sa[ia]); meta.append((a, ia)); ia += 1
+            else:
+                steps.append(sb[ib]); meta.append((b, ib)); ib += 1
+        cases.append({"id": "p%d" % pi, "cfg": cfg, "steps": steps, "fresh": True, "two": True})
+        metas.append(meta)
+    obs = run_harness_stable_day(cases, "c06.pairs", jobs=8)
+    for case, meta, o in zip(cases, metas, obs):
+        steps = o.get("steps") or []
+        rep.case(["pair", case["steps"]], True)
+        rep.replayed += 1
+        for k, (c, hk) in enumerate(meta):
+            h = c["hist"][hk]
+            st = steps[k] if k < len(steps) else o
+            if st.get("outcome") == "toolerror":
+                raise ToolError("pairs: %s" % st)
+            if h["call"] == "update_currency":
+                ok = st.get("outcome") == "returned" and st.get("ret") == h["ret"]
+                what = "ret"
+            else:
+                ss = proj.slots_of_step(st)
+                slot = ss[1][0] if ss and ss[0] is True and len(ss[1]) == 1 else None
+                ok = compare.match_slot(h["expected"], slot)
+                what = h["line"]["form"]
+            if not ok:
+                rep.violation({"check": "replay", "form": "two-calculators", "case": case, "step": k, "observed": st, "expected": h.get("expected", h.get("ret")),
+                               "feat": {"form": "two-calculators", "what": what, "failure": compare.failure_kind(None, st)},
+                               "class": "two-calculators|%s|calc%d" % (what, case["steps"][k].get("calc", 1))})
+                break
+    if cases:
+        rep.sample({"two_calculators": cases[0]["steps"]})
 
 
 def random_trace(rep, nhist):
